@@ -48,6 +48,18 @@ def dStep (d : DSt) (op : List String) : DSt × String :=
       let (s, sps) := tick d.s t
       ({ d with s := s, lastT := t }, joinWith "," (sps.map showSpawn))
     | none => (d, "bad-op")
+  | ["TB", t, _busy] => match t.toNat? with
+    -- an iteration whose callbacks take a while on the wall clock: nothing in echsd asks libev to look at the clock
+    -- again (`ev_loop_fork` is not called), so it is an iteration like any other
+    | some t =>
+      let (s, sps) := tick d.s t
+      ({ d with s := s, lastT := t }, joinWith "," (sps.map showSpawn))
+    | none => (d, "bad-op")
+  | ["J", t] => match t.toNat? with
+    | some t =>
+      let (s, sps) := jump d.s t
+      ({ d with s := s, lastT := t }, joinWith "," (sps.map showSpawn))
+    | none => (d, "bad-op")
   | "A" :: peer :: _hex :: rest => match peer.toNat?, rest.mapM parseInstr? with
     | some peer, some ins =>
       let (s, rps) := cmdIcal d.s peer ins
